@@ -123,15 +123,15 @@ def shards(tier, seed):
         kw["name"] = name
         out.append(kw)
 
-    n = 8000 if big else 450
+    n = 8000 if big else 480
     for i in range(6 if big else 4):
         add(f"exact{i}", mode="fraction", auto_reduce=False, trees=n, depth=4 if big and i % 2 else 3)
     for i in range(3 if big else 2):
         add(f"exact-reduce{i}", mode="fraction", auto_reduce=True, trees=n, depth=3)
-    add("matrix-exact", mode="fraction", auto_reduce=False, matrix=8 if big else 1, trees=0, depth=1)
-    add("matrix-exact-reduce", mode="fraction", auto_reduce=True, matrix=8 if big else 1, trees=0, depth=1)
-    add("matrix-float", mode="float", auto_reduce=False, matrix=8 if big else 1, trees=0, depth=1)
-    add("matrix-float-reduce", mode="float", auto_reduce=True, matrix=8 if big else 1, trees=0, depth=1)
+    add("matrix-exact", mode="fraction", auto_reduce=False, matrix=6 if big else 1, trees=0, depth=1)
+    add("matrix-exact-reduce", mode="fraction", auto_reduce=True, matrix=6 if big else 1, trees=0, depth=1)
+    add("matrix-float", mode="float", auto_reduce=False, matrix=6 if big else 1, trees=0, depth=1)
+    add("matrix-float-reduce", mode="float", auto_reduce=True, matrix=6 if big else 1, trees=0, depth=1)
     for i in range(2 if big else 1):
         add(f"generated{i}", mode="fraction", auto_reduce=bool(i % 2), generated=True,
             registries=60 if big else 5, trees=40, depth=3)
@@ -622,7 +622,14 @@ class Pool:
             out = {k2: v for k2, v in out.items() if v}
             if not self.maxlog or self.in_range(out):
                 return out
-        raise LookupError("no unit in float range for " + repr(dims))
+        out = {}
+        for d, e in dims.items():            # last resort: the unit of each base dimension closest to 1
+            cands = self.base.get(d)
+            if not cands:
+                raise LookupError("no unit for " + repr(dims))
+            c = min(cands, key=lambda c2: abs(math.log10(abs(self.m.root(c2)[0].f()))))
+            out[c] = out.get(c, 0) + F(e)
+        return {k2: v for k2, v in out.items() if v}
 
     def in_range(self, units):
         """Inexact runs: keep every factor far from float overflow / underflow."""
@@ -1218,7 +1225,11 @@ def value_matches(real, mv, cx, float_leak, fracunits=False):
     if d == 0:
         return "eq"
     bound = K_TOL * mv.err
-    return "tol" if float(d) <= bound + 1e-300 else None
+    if float(d) <= bound + 1e-300:
+        return "tol"
+    if real == 0 and cx.mode != "decimal":
+        return "underflow"          # h ** 10 style underflow inside a conversion factor
+    return None
 
 
 class Decider:
@@ -1361,6 +1372,11 @@ class Decider:
         _, mag, dims, bare, fracunits = nm
         mv0 = mvs[0]
         if dims != mv0.dims:
+            if not cx.exact and all(abs(dims.get(k2, 0) - mv0.dims.get(k2, 0)) < F(1, 10 ** 9)
+                                    for k2 in set(dims) | set(mv0.dims)):
+                # float exponent arithmetic (x ** 1.37 on compound units) leaves 1e-16 residues in
+                # the dimensionality; ancestors may legitimately refuse such operands
+                return ("skip", "float-rounded-dimension-exponent")
             return ("result-dimension-differs-from-model",
                     {"got": {k: str(v) for k, v in dims.items()}, "want": {k: str(v) for k, v in mv0.dims.items()}})
         if bare != mv0.bare:
@@ -1384,6 +1400,8 @@ class Decider:
                 rec.count("nodes_exact_equal")
             elif how == "leak":
                 leak_seen = True
+            elif how == "underflow":
+                return ("skip", "float-underflow-to-zero")
             if cx.exact is False and mv.v != 0 and not is_nan(mv.v):
                 try:
                     rec.maximum("max_rel_error_seen_" + cx.mode,
@@ -1687,7 +1705,7 @@ MATRIX_KINDS = ("dim", "dim-same-units", "dim-prefixed", "other-dim", "power-dim
                 "ratio", "bare-int", "bare-frac", "bare-zero", "bare-nan", "bare-one")
 
 
-def matrix_trees(g, rng, reps):
+def matrix_trees(g, rng, reps, all_forms=True):
     """Systematic depth-1 trees: operator x left kind x right kind x form."""
     pool = g.pool
 
@@ -1771,8 +1789,11 @@ def matrix_trees(g, rng, reps):
                     dims = g.random_dims()
                     if not dims:
                         dims = {next(iter(pool.base)): F(1)} if pool.base else dims
-                    l = operand(lk, dims)
-                    r = operand(rk, dims, l)
+                    try:
+                        l = operand(lk, dims)
+                        r = operand(rk, dims, l)
+                    except LookupError:
+                        continue
                     if op == "**" and g.cx.exact:
                         # integer valued exponent
                         if r.kind == "leaf":
@@ -1787,7 +1808,14 @@ def matrix_trees(g, rng, reps):
                             continue          # inexact exponent on a dimensional base: not generated
                     if g.cx.mode == "decimal" and "nan" in (lk + rk) and op in ("<", "<=", ">", ">="):
                         continue
-                    for form in ("plain", "inplace", "rdirect"):
+                    forms = ["plain", "inplace", "rdirect"]
+                    if not all_forms:
+                        forms = forms[rep % 3:] + forms[:rep % 3]
+                        rng.shuffle(forms)
+                    done = False
+                    for form in forms:
+                        if done and not all_forms:
+                            break
                         if form == "inplace" and op not in IOP:
                             continue
                         if form == "rdirect" and (op not in RDUNDER or lk.startswith("bare-") or rk.startswith("bare-")):
@@ -1795,6 +1823,7 @@ def matrix_trees(g, rng, reps):
                         if form != "plain" and lk.startswith("bare-"):
                             continue
                         n = Node("bin", op, [copy.copy(l), copy.copy(r)], form=form)
+                        done = True
                         yield n
 
 
@@ -1824,7 +1853,7 @@ def run_shard(spec, rec):
         if spec.get("matrix"):
             g = TreeGen(rng, pool, cx, 1, full_shape=None)
             decider = Decider(runner, g, rec, cx)
-            for ti, root in enumerate(matrix_trees(g, rng, spec["matrix"])):
+            for ti, root in enumerate(matrix_trees(g, rng, spec["matrix"], spec["tier"] == "thorough")):
                 evaluate_tree(root, g, runner, decider, rec, cx, ti, label)
                 if ti % 500 == 0:
                     monitors.drain(rec, label)
